@@ -538,6 +538,8 @@ class Ownership:
         # to recognise `<receiver>.update(T)` as the refresh of a dassh Material (every property rebound from T)
         self.samples = samples or {}
         self.refresh_sites = []
+        self.shallow = {}            # class -> {attribute copied shallowly by clone(): keys re-assigned afresh}
+        self.deep_stores = {}        # class -> {attribute: {constant key below which the sweep stores in place}}
 
     def _is_material_refresh(self, cls, call):
         """`recv.update(x)` with recv reached from self and, on the sample object of cls, a dassh Material (or a
@@ -679,6 +681,21 @@ class Ownership:
                             and base.id == 'self'
                         if not aliases_self:
                             fresh.add(tg.attr)
+                        # a SHALLOW copy of the template's container (dict(self.x), list(self.x), copy.copy(self.x),
+                        # self.x.copy()): a new outer object whose nested containers are still the template's
+                        if isinstance(v, ast.Call):
+                            f = v.func
+                            nm = f.attr if isinstance(f, ast.Attribute) else (f.id if isinstance(f, ast.Name) else '')
+                            args = list(v.args) + ([f.value] if isinstance(f, ast.Attribute) and nm == 'copy' else [])
+                            src = [a for a in args if isinstance(a, ast.Attribute) and isinstance(a.value, ast.Name)
+                                   and a.value.id == 'self']
+                            if nm in ('dict', 'list', 'copy', 'OrderedDict') and src and 'deepcopy' not in ast.unparse(v):
+                                self.shallow.setdefault(cls, {}).setdefault(tg.attr, set())
+                    # clone.x['key'] = <fresh value>: that nested entry is the clone's own
+                    if isinstance(tg, ast.Subscript) and isinstance(tg.value, ast.Attribute) \
+                            and isinstance(tg.value.value, ast.Name) and tg.value.value.id == var \
+                            and isinstance(tg.slice, ast.Constant) and self._is_fresh_value(n.value):
+                        self.shallow.setdefault(cls, {}).setdefault(tg.value.attr, set()).add(tg.slice.value)
             if isinstance(n, ast.Call) and isinstance(n.func, ast.Attribute) and isinstance(n.func.value, ast.Name) \
                     and n.func.value.id == var:
                 fresh |= self.assigned_by(cls, n.func.attr)
@@ -816,6 +833,43 @@ class Ownership:
                             M.setdefault(attr, []).append(f'{m}: {ast.unparse(n)[:70]}')
             # properties used by the sweep
         return M
+
+    def nested_stores(self, cls, entry_methods):
+        """{attribute: keys} for stores of the form self.attr[<const key>][...] = ... (or mutator calls on such a
+        receiver) in the methods reachable from entry_methods: in-place changes BELOW a nested container"""
+        out = {}
+        seen, todo = set(), list(entry_methods)
+        while todo:
+            m = todo.pop()
+            if m in seen:
+                continue
+            seen.add(m)
+            node = self._method(cls, m)
+            if node is None:
+                continue
+            for n in ast.walk(node):
+                if isinstance(n, ast.Call) and isinstance(n.func, ast.Attribute) and isinstance(n.func.value, ast.Name) \
+                        and n.func.value.id == 'self':
+                    todo.append(n.func.attr)
+                tgs = []
+                if isinstance(n, ast.Assign):
+                    tgs = list(n.targets)
+                elif isinstance(n, ast.AugAssign):
+                    tgs = [n.target]
+                elif isinstance(n, ast.Call) and isinstance(n.func, ast.Attribute) and n.func.attr in MUTATORS:
+                    tgs = [ast.Subscript(value=n.func.value, slice=ast.Constant(value=None), ctx=ast.Store())]
+                for t in tgs:
+                    chain, base = [], t
+                    while isinstance(base, (ast.Attribute, ast.Subscript)):
+                        chain.append(base)
+                        base = base.value
+                    if not (isinstance(base, ast.Name) and base.id == 'self') or len(chain) < 3:
+                        continue
+                    first, second = chain[-1], chain[-2]
+                    if isinstance(first, ast.Attribute) and isinstance(second, ast.Subscript):
+                        key = second.slice.value if isinstance(second.slice, ast.Constant) else '*'
+                        out.setdefault(first.attr, set()).add(key)
+        return out
 
     @staticmethod
     def _note_store(t, M, m, depth_min):
